@@ -61,7 +61,7 @@ def model_labels(cfg_lines, labels, locked):
     return p.stdout.decode().splitlines()
 
 
-def run_schedule(lines, short_ms=250):
+def run_schedule(lines, short_ms=250, long_ms=30000):
     os.makedirs(os.path.join(build.BUILD, "work"), exist_ok=True)
     wd = tempfile.mkdtemp(prefix="sch-", dir=os.path.join(build.BUILD, "work"))
     try:
@@ -71,7 +71,7 @@ def run_schedule(lines, short_ms=250):
         t0 = time.time()
         try:
             p = subprocess.run([build.XSV, "sched", sp, os.path.join(wd, "w"), op], stdout=subprocess.PIPE,
-                               stderr=subprocess.PIPE, timeout=600, env=dict(os.environ, XSV_SHORT_MS=str(short_ms)))
+                               stderr=subprocess.PIPE, timeout=600, env=dict(os.environ, XSV_SHORT_MS=str(short_ms), XSV_LONG_MS=str(long_ms)))
             rc, err = p.returncode, p.stderr.decode(errors="replace")[-1500:]
         except subprocess.TimeoutExpired:
             rc, err = -9, "timeout"
